@@ -110,6 +110,9 @@ def _report(ctx, rule, keyed, exceptions, violation_text, seen=None):
         ek = moved_lookup(exceptions, key, used) or moved_lookup_loose(exceptions, key, used)
         if ek is not None:
             used.add(ek)
+            if not hasattr(ctx, "moved_excepted"):
+                ctx.moved_excepted = set()
+            ctx.moved_excepted.add(re.sub(r"\|\d+$", "", key))
             ctx.exception(rule, key, exceptions[ek] + " [same construct on the same expression as `%s`, whose site is gone: the code was moved]" % ek.split("|")[1][-60:], loc)
         else:
             unresolved.append((key, s, loc))
@@ -143,6 +146,10 @@ def _report(ctx, rule, keyed, exceptions, violation_text, seen=None):
                 ctx.undecided = []
             ctx.undecided.append("%s at %s is not excepted, while the exception written for `%s` has lost its site: moved or re-spelled code, triage again"
                                  % (key[:160], loc, partner.split("|", 1)[1][:120]))
+            if not hasattr(ctx, "undecided_keys"):
+                ctx.undecided_keys = set()
+            ctx.undecided_keys.add(key)
+            # the exception the site may have moved from also answers for it where other rules ask "is this site excepted?" (lock regions)
             ctx.note("undecided (moved code?): %s" % key)
         else:
             ctx.violation(rule, key, violation_text(s), loc)
